@@ -185,7 +185,7 @@ pub fn norm_obs(o: &OpObs) -> String {
     let mut s = String::new();
     s.push_str(&format!("err={} ", o.err.is_some()));
     for e in &o.events {
-        s.push_str(&format!("E:{:?};", e));
+        s.push_str(&format!("E:{};", fmt_server_event(e)));
     }
     for m in &o.out {
         let body = match &m.rm {
